@@ -15,7 +15,9 @@
 
     Every worker/main action that corresponds to a hook-H2 point of /repo (server.rs, from_proto.rs) is named
     after it; actions without a hook (guard drops, mutex, analysis calls, the publish call) are "unobserved"
-    (see SchedTrace.v).  Executable definitions only; the theorems are in proofs/SchedProofs.v. *)
+    (see SchedTrace.v).  Executable definitions only; the theorems are in proofs/SchedProofs.v.
+    The skeletons and the handler script below are re-derived from the CURRENT server.rs / from_proto.rs on every
+    run by tools/translate/t_server.py (gen/GenServerSkel.v); proofs/SchedSource.v proves them equal. *)
 From Coq Require Import List Bool Arith.
 Import ListNotations.
 
@@ -220,16 +222,19 @@ Fixpoint pub_ok (nw : bool) (l : list mact) : bool :=
 (* ------------------------------------------------------------------------------------------ *)
 (** * The skeletons of server.rs (validated against hook-H2 traces of the real server by checks/C08.py) *)
 
-(** from_proto::{file_pos,file,file_range}: the guard is a local of the helper *)
-Definition lookup (s : site) : list wact := [WReqV s; WAcqV; WRelV].
+(** from_proto::{file_pos,file,file_range}: the guard is a local of the helper; the line index of the document
+    (a salsa query) is computed while it is held *)
+Definition lookup (s : site) : list wact := [WReqV s; WAcqV; WCompute; WRelV].
 Definition tail : list wact := [WDrop; WEnd].
-(** second acquisition in the closure body: held until the closure returns *)
-Definition convert (s : site) : list wact := [WReqV s; WAcqV; WCompute; WRelV].
+(** second acquisition in the closure body: held until the closure returns; [c] = a salsa query (line_index of
+    the target file) is evaluated under the guard (definition, references; not document_link) *)
+Definition convert (s : site) (c : bool) : list wact :=
+  [WReqV s; WAcqV] ++ (if c then [WCompute] else []) ++ [WRelV].
 Definition req1 (s : site) : list wact := WStart :: lookup s ++ [WCompute] ++ tail.
-Definition req2 (s s2 : site) (found : bool) : list wact :=
-  WStart :: lookup s ++ [WCompute] ++ (if found then convert s2 else []) ++ tail.
-(** one iteration of the publish loop of update_diagnostics *)
-Definition pub1 (p : P) : list wact := [WReqV SDiagnostics; WAcqV; WPub p; WRelV].
+Definition req2 (s s2 : site) (c found : bool) : list wact :=
+  WStart :: lookup s ++ [WCompute] ++ (if found then convert s2 c else []) ++ tail.
+(** one iteration of the publish loop of update_diagnostics (line_index of the file, then the vfs for its path) *)
+Definition pub1 (p : P) : list wact := [WCompute; WReqV SDiagnostics; WAcqV; WPub p; WRelV].
 Definition diag (pubs : list P) : list wact :=
   [WStart; WCompute; WReqP; WAcqP; WRelP] ++ flat_map pub1 pubs ++ tail.
 
@@ -238,9 +243,9 @@ Definition skeleton (k : kind) : list wact :=
   | KHover | KCompletion => req1 SFilePos
   | KDocumentSymbol | KFoldingRange => req1 SFile
   | KInlayHint => req1 SFileRange
-  | KDefinition f => req2 SFilePos SDefinition f
-  | KReferences f => req2 SFilePos SReferences f
-  | KDocumentLink f => req2 SFile SDocumentLink f
+  | KDefinition f => req2 SFilePos SDefinition true f
+  | KReferences f => req2 SFilePos SReferences true f
+  | KDocumentLink f => req2 SFile SDocumentLink false f
   end.
 
 (** what the main loop does for one incoming message *)
